@@ -119,3 +119,36 @@ CHECKS["C03"] = dict(_db("c03", 64, 3200, "a memstore-inclusive query depends on
           "flushes with clean close+reopen; queries: SELECT * and a named field subset with the memstore, and after a final flush the same two "
           "disk-only; every run is compared with the schedule-independent reference (so all schedules agree with each other). "
           "non-trivial: >= 3 points"))
+
+CHECKS["C04"] = dict(
+    stages=[dict(sub="dbq", mode="c04", quick=48, thorough=2400, shrink=["points", "queries", "flush_after", "reopen_after"], parallel=16, shards=16),
+            dict(sub="c05seq", quick=600, thorough=32000, shrink=[["s1", "cells"], ["s2", "cells"]], seed_salt=17)],
+    finding_key=db_finding_key, assumptions=_DB_ASSUME + ["c05seq: operand byte buffers of Truncate/Merge/SubMerge are compared before/after the call (qc_intact)"],
+    trusted=_DB_TRUSTED,
+    what_fails="a probe query returns different rows after another query ran (before or after the next flush), or a sequence operation modified its operand's bytes",
+    rule=("dbq/c04: per history two rounds of [probe, Q, probe, FlushAll, probe] on the real DB; Q drawn from grouped / time-ranged / "
+          "derived-field / disk-only queries incl. UNTIL bounds that end before the newest stored period; every probe must equal the "
+          "reference over the inserted points. c05seq: Truncate/Merge/SubMerge operand bytes unchanged. non-trivial: >= 3 points / non-empty operand"))
+CHECKS["C09"]["stages"].append(dict(sub="dbsort", quick=48, thorough=2400, shrink=["points", "order"], parallel=16, shards=16))
+CHECKS["C09"]["rule"] += ("; dbsort: generated tables/points/flush schedules on the real DB, a base query (native or grouped), the same with ORDER BY "
+                          "(1-4 keys over output fields, dims, _time, an absent name) and with ORDER BY + LIMIT [offset,] n; the proved oracle is "
+                          "evaluated on the three row sets (values mapped to ranks, an order isomorphism)")
+CHECKS["C17"] = dict(
+    stages=[dict(sub="dbconc", quick=32, thorough=800, shrink=["points"], parallel=16, shards=16)],
+    finding_key=db_finding_key, assumptions=_DB_ASSUME + [
+        "IterationCoalesceInterval 150ms and all queries started together, so coalescing happens (group sizes recorded through the verif hook and reported); 1 in 5 cases staggers the starts beyond the interval",
+        "adversary queries (row callback failing after its first row; 250ms deadline next to a slow consumer) are not themselves compared"],
+    trusted=_DB_TRUSTED,
+    what_fails="a query served by a shared (coalesced) scan returns rows or an error it does not return alone",
+    rule=("2-6 generated queries (all/named/derived fields, grouping, time ranges, LIMIT, memstore on/off, generous deadlines) issued "
+          "concurrently against one table, plus in half of the cases an adversary (failing consumer, or short deadline beside a slow "
+          "deadline-free consumer); each non-adversary result is compared with the reference, i.e. with what it returns alone. "
+          "non-trivial: a coalesced group of size >= 2 was observed"))
+CHECKS["C18"] = dict(
+    stages=[dict(sub="dbsnap", quick=64, thorough=3200, shrink=["points", "during"], parallel=16, shards=16)],
+    finding_key=db_finding_key, assumptions=_DB_ASSUME, trusted=_DB_TRUSTED,
+    what_fails="rows delivered by a running memstore-inclusive scan reflect points inserted after the scan started",
+    rule=("SELECT * on the real DB with a row callback that, after the k-th delivered row (k = 0..5), inserts 1-10 further points (2/3 of "
+          "them into existing keys and periods, i.e. the in-place update branch), waits for exact quiescence, in half of the cases "
+          "forces a flush, and then lets the scan continue; the delivered rows must equal the reference over the points inserted "
+          "before the scan. non-trivial: the scan was actually paused with rows still to deliver"))
